@@ -75,19 +75,7 @@ impl Sim {
         let mut out = Vec::new();
         let mut evs = Vec::new();
         while let Ok(ev) = self.ev_rx.try_recv() {
-            match &ev {
-                PoolEvent::ParentReady { slot, parent } => out.push(format!("pr {} {} {}", slot.inner(), parent.0.inner(), keys.hash_id[&parent.1])),
-                PoolEvent::SafeToNotar((s, h)) => out.push(format!("s2n {} {}", s.inner(), keys.hash_id[h])),
-                PoolEvent::SafeToSkip(s) => out.push(format!("s2s {}", s.inner())),
-                PoolEvent::CertCreated(c) => out.push(fmt_cert(keys, c)),
-                PoolEvent::Standstill(s, certs, votes) => {
-                    let mut cs: Vec<String> = certs.iter().map(|c| fmt_cert(keys, c)).collect();
-                    cs.sort();
-                    let mut vs: Vec<String> = votes.iter().map(|v| fmt_vote(keys, v)).collect();
-                    vs.sort();
-                    out.push(format!("standstill {} [{}] [{}]", s.inner(), cs.join(" / "), vs.join(" / ")));
-                }
-            }
+            out.push(fmt_event(keys, &ev));
             evs.push(ev);
         }
         let mut reps = Vec::new();
@@ -110,6 +98,35 @@ struct Run<'a> {
     dead: bool,
     /// set when the history left the protocol's safety envelope (possible only with >= 20% Byzantine stake)
     safety_panic: bool,
+    /// when set: the calls of the case (for the replay under back-pressure) ...
+    log: Option<Vec<LoggedOp>>,
+    /// ... and the Votor events they produced, in channel order
+    evlog: Vec<String>,
+}
+
+/// one call into the pool, as it was made on the `Sim`
+#[derive(Clone)]
+enum LoggedOp {
+    Vote(ValidatedVote),
+    Cert(ValidatedCert),
+    Block(BlockId, BlockId),
+    Recover,
+}
+
+fn fmt_event(keys: &Keys, ev: &PoolEvent) -> String {
+    match ev {
+        PoolEvent::ParentReady { slot, parent } => format!("pr {} {} {}", slot.inner(), parent.0.inner(), keys.hash_id[&parent.1]),
+        PoolEvent::SafeToNotar((s, h)) => format!("s2n {} {}", s.inner(), keys.hash_id[h]),
+        PoolEvent::SafeToSkip(s) => format!("s2s {}", s.inner()),
+        PoolEvent::CertCreated(c) => fmt_cert(keys, c),
+        PoolEvent::Standstill(s, certs, votes) => {
+            let mut cs: Vec<String> = certs.iter().map(|c| fmt_cert(keys, c)).collect();
+            cs.sort();
+            let mut vs: Vec<String> = votes.iter().map(|v| fmt_vote(keys, v)).collect();
+            vs.sort();
+            format!("standstill {} [{}] [{}]", s.inner(), cs.join(" / "), vs.join(" / "))
+        }
+    }
 }
 
 impl Run<'_> {
@@ -163,6 +180,7 @@ impl Run<'_> {
             return;
         }
         let (evs, raw) = sim.drain(keys);
+        self.evlog.extend(evs[..raw.len()].iter().cloned());
         let out = format!("{} | {}", verdict, evs.join(" ; "));
         self.rec.step(op, &out);
         self.rec.count(&format!("verdict:{}", verdict.split(' ').next().unwrap_or("")));
@@ -334,6 +352,7 @@ impl Run<'_> {
         let fu = sim.pool.verif_first_unpruned_slot().inner();
         let fin = sim.pool.finalized_slot().inner();
         let expected = Self::expected_verdicts(sim, k, slot, h, signer, fu, fin);
+        if let Some(log) = &mut self.log { log.push(LoggedOp::Vote(vv.clone())); }
         let res = catch(|| self.rt.block_on(sim.pool.add_vote(vv)));
         let verdict = match &res {
             Ok(Ok(())) => "ok".to_string(),
@@ -374,6 +393,7 @@ impl Run<'_> {
         let c = build_cert(keys, ck, slot, h, a, b, sim.epoch.epoch_info().validators());
         let op = format!("cert {} {} {} {} {} {}", ck.name(), slot, h, fmt_list(a), fmt_list(b), c.stake().inner());
         let vc = match ValidatedCert::try_new(c, sim.epoch.epoch_info()) { Ok(v) => v, Err(_) => return };
+        if let Some(log) = &mut self.log { log.push(LoggedOp::Cert(vc.clone())); }
         let res = catch(|| self.rt.block_on(sim.pool.add_cert(vc)));
         let verdict = match &res {
             Ok(Ok(())) => "ok".to_string(),
@@ -391,6 +411,7 @@ impl Run<'_> {
         let op = format!("block {} {} {} {}", b.0, b.1, p.0, p.1);
         let bid = (Slot::new(b.0), keys.hashes[b.1].clone());
         let pid = (Slot::new(p.0), keys.hashes[p.1].clone());
+        if let Some(log) = &mut self.log { log.push(LoggedOp::Block(bid.clone(), pid.clone())); }
         let res = catch(|| self.rt.block_on(sim.pool.add_block(bid, pid)));
         let verdict = if res.is_ok() { "ok" } else { "panic" }.to_string();
         if res.is_ok() { sim.blocks.insert(b, p); }
@@ -401,6 +422,7 @@ impl Run<'_> {
     fn recover(&mut self, sim: &mut Sim) {
         if self.dead { return; }
         let keys = self.keys;
+        if let Some(log) = &mut self.log { log.push(LoggedOp::Recover); }
         let res = catch(|| self.rt.block_on(sim.pool.recover_from_standstill()));
         let verdict = if res.is_ok() { "ok" } else { "panic" }.to_string();
         self.rec.oracle(res.is_ok(), "recover-panic", || format!("recover_from_standstill panicked (finalized slot {}): {:?}", sim.pool.finalized_slot().inner(), res.as_ref().err()));
@@ -501,8 +523,73 @@ impl Run<'_> {
                 out.push(format!("standstill {} [{}] [{}]", s.inner(), cs.join(" / "), vs.join(" / ")));
             }
         }
+        self.evlog.extend(pending.iter().map(|ev| fmt_event(keys, ev)));
         self.rec.step("recover", &format!("{} | {}", verdict, out.join(" ; ")));
         self.rec.count("op:recover");
+    }
+
+    /// Replays the logged calls of the case on a fresh pool whose channel to Votor holds only `cap` events, concurrently
+    /// with a consumer that starts `start_lag` scheduler turns late and pauses `lag` turns after every event (one
+    /// current-thread runtime, `join!`, no timers: deterministic).  A full queue towards Votor is a state like any
+    /// other: every triggered recovery must still hand over its bundle ("whenever a node triggers standstill recovery
+    /// it hands over ...", "safe in every state"), and Votor must see exactly the events an unhindered consumer sees.
+    /// Oracle-only: nothing is written to the compared stream.
+    fn replay_backpressure(&mut self, sim: &Sim, cap: usize, start_lag: usize, lag: usize) {
+        let Some(log) = self.log.take() else { return };
+        let want = std::mem::take(&mut self.evlog);
+        if self.dead || self.safety_panic { return; }
+        let keys = self.keys;
+        let epoch = sim.epoch.clone();
+        let nrecover = log.iter().filter(|o| matches!(o, LoggedOp::Recover)).count();
+        let res = catch(|| self.rt.block_on(async {
+            let (ev_tx, mut ev_rx) = mpsc::channel(cap);
+            let (rep_tx, mut rep_rx) = mpsc::channel(1 << 14);
+            let probe = ev_tx.clone();
+            let mut pool = PoolImpl::new(epoch, ev_tx, rep_tx);
+            let feeder = async move {
+                // number of recoveries triggered while the queue towards Votor was full
+                let mut full = 0usize;
+                for op in log {
+                    match op {
+                        LoggedOp::Vote(v) => { let _ = pool.add_vote(v).await; }
+                        LoggedOp::Cert(c) => { let _ = pool.add_cert(c).await; }
+                        LoggedOp::Block(b, p) => pool.add_block(b, p).await,
+                        LoggedOp::Recover => {
+                            if probe.capacity() == 0 { full += 1; }
+                            pool.recover_from_standstill().await;
+                        }
+                    }
+                    while rep_rx.try_recv().is_ok() {}
+                }
+                drop(pool); // with `probe`: closes the channel, the consumer sees the end of the stream
+                drop(probe);
+                full
+            };
+            let consumer = async {
+                for _ in 0..start_lag { tokio::task::yield_now().await; }
+                let mut got: Vec<String> = Vec::new();
+                while let Some(ev) = ev_rx.recv().await {
+                    got.push(fmt_event(keys, &ev));
+                    for _ in 0..lag { tokio::task::yield_now().await; }
+                }
+                got
+            };
+            tokio::join!(feeder, consumer)
+        }));
+        let desc = format!("replay of the case with a Votor queue of capacity {cap}, consumer {start_lag} turns late, pausing {lag} turns per event");
+        self.rec.oracle(res.is_ok(), "pool-panic", || format!("{desc}: the pool panicked: {:?}", res.as_ref().err()));
+        let Ok((full, got)) = res else { return };
+        self.rec.count("backpressure:replays");
+        for _ in 0..full { self.rec.count("backpressure:recover-with-full-queue"); }
+        let st = |v: &[String]| v.iter().filter(|e| e.starts_with("standstill ")).cloned().collect::<Vec<_>>();
+        let (got_st, want_st) = (st(&got), st(&want));
+        let nst = got_st.len();
+        self.rec.oracle(nst == nrecover, "bundle-not-handed-over", || format!("{desc}: recovery was triggered {nrecover} time(s) ({full} of them with the queue full) but {nst} bundle(s) reached Votor; an unhindered consumer sees {:?}, this one received {:?}", want, got));
+        let first = (0..want_st.len().max(got_st.len())).find(|i| want_st.get(*i) != got_st.get(*i));
+        self.rec.oracle(first.is_none(), "bundle-differs-under-backpressure", || {
+            let i = first.unwrap_or(0);
+            format!("{desc}: bundle {i} reaching Votor is {:?}, an unhindered consumer sees {:?}", got_st.get(i), want_st.get(i))
+        });
     }
 }
 
@@ -561,7 +648,7 @@ fn main() {
     let keys = Keys::new(&mut krng);
     let focus = args.extra.iter().position(|a| a == "--focus").map(|i| args.extra[i + 1].clone()).unwrap_or_else(|| "C03".into());
     let rt = tokio::runtime::Builder::new_current_thread().build().expect("rt");
-    let mut run = Run { keys: &keys, rec: Recorder::new(), rt, class: 0, focus: focus.clone(), dead: false, safety_panic: false };
+    let mut run = Run { keys: &keys, rec: Recorder::new(), rt, class: 0, focus: focus.clone(), dead: false, safety_panic: false, log: None, evlog: Vec::new() };
     // corpus first: minimized past failures and directed scenarios
     let corpus = std::path::Path::new(env!("CARGO_MANIFEST_DIR")).join("../corpus/pool");
     if let Some(rp) = &args.replay {
@@ -583,23 +670,36 @@ fn main() {
         (_, false) => 90,
         (_, true) => 1200,
     };
-    for _ in 0..cases {
+    // directed shape `epoch-boundary` (every focus, own random stream): chains that cross an epoch boundary
+    let nboundary = if args.thorough { 40 } else { 6 };
+    let mut erng = Rng::new(args.seed ^ 0xE90C_B0DA);
+    for ci in 0..nboundary + cases {
+        let boundary = ci < nboundary;
+        let rng = if boundary { &mut erng } else { &mut rng };
         let n = match rng.below(10) { 0 => 1, 1 => 2, 2 => 3, 3..=6 => rng.range(4, 8) as usize, 7..=8 => rng.range(9, 14) as usize, _ => rng.range(15, 24) as usize };
-        let (stakes, shape) = stake_shape(&mut rng, n);
+        let (stakes, shape) = stake_shape(rng, n);
         let own = rng.below(n as u64) as usize;
         let mut sim = Sim::new(&keys, stakes.clone(), own);
         run.class = 0;
         run.dead = false;
         run.safety_panic = false;
-        let plan = match focus.as_str() {
+        let plan = if boundary { "epoch-boundary" } else { match focus.as_str() {
             "C04" => *rng.pick(&["conflicts", "legit", "mixed"]),
             "C06" => *rng.pick(&["s2n", "s2n", "s2s", "mixed"]),
             "C18" => *rng.pick(&["chain", "chain", "mixed"]),
             _ => *rng.pick(&["quorums", "quorums", "mixed", "chain", "s2n"]),
-        };
+        } };
         run.rec.begin_case(&format!("{plan}/{shape}/n{n}"));
         run.rec.step(&format!("epoch {} {}", own, stakes.iter().map(|s| s.to_string()).collect::<Vec<_>>().join(" ")), &format!("epoch n={} total={}", n, sim.total));
-        gen_case(&mut run, &mut sim, &mut rng, plan);
+        // C18: every case is afterwards replayed against a tiny, lagging queue towards Votor
+        let bp = if focus == "C18" {
+            let mut brng = rng.fork();
+            run.log = Some(Vec::new());
+            run.evlog.clear();
+            Some((brng.range(1, 2) as usize, *brng.pick(&[0usize, 2, 40, 1000]), brng.range(1, 3) as usize))
+        } else { None };
+        if boundary { gen_boundary_case(&mut run, &mut sim, rng); } else { gen_case(&mut run, &mut sim, rng, plan); }
+        if let Some((cap, start_lag, lag)) = bp { run.replay_backpressure(&sim, cap, start_lag, lag); }
         let class = run.class;
         run.rec.end_case(class, true);
     }
@@ -620,6 +720,54 @@ fn subset_reaching(sim: &Sim, rng: &mut Rng, num: u64) -> Vec<usize> {
     }
     out.sort();
     out
+}
+
+/// Progress across an epoch boundary (C02: "every correct node's highest finalized slot keeps advancing", also in the
+/// last window of an epoch).  The node catches up to a finalized slot just below a multiple of SLOTS_PER_EPOCH by a
+/// received fast-finalization certificate (as after a standstill bundle); then for each following slot, into the next
+/// epoch, a block is registered and the messages that finalize it arrive in random order: notarization votes of >= 80 %
+/// of the stake, or notarization + finalization votes of >= 60 % each, or the certificates themselves.  All of them lie
+/// far inside the admission window (finalized + 2 * SLOTS_PER_EPOCH), so after the messages of slot s the pool's
+/// finalized slot must be >= s.  Every step is also replayed on the Lean model like any other case.
+fn gen_boundary_case(run: &mut Run, sim: &mut Sim, rng: &mut Rng) {
+    let e = alpenglow::types::SLOTS_PER_EPOCH;
+    // (not below 2 * SLOTS_PER_EPOCH: finalizing beyond it runs into the known finding D17 at every recovery)
+    let start = match rng.below(3) { 0 => e - 1, 1 => e - 2, _ => e - 1 - rng.below(8) };
+    let a = subset_reaching(sim, rng, 4);
+    run.cert(sim, CK::Ff, start, 1, &a, &[]);
+    let fin0 = sim.pool.finalized_slot().inner();
+    run.rec.oracle(run.dead || fin0 == start, "c02-catch-up-refused", || format!("epoch-boundary: a fresh pool that receives a fast-finalization certificate for slot {start} (< 2 * SLOTS_PER_EPOCH) reports finalized slot {fin0}"));
+    let k = rng.range(2, 8);
+    let mut parent = (start, 1usize);
+    for i in 0..k {
+        let (s, h) = (start + 1 + i, 2 + i as usize);
+        run.block(sim, (s, h), parent);
+        let mode = rng.below(4);
+        let mut msgs: Vec<(K, usize)> = Vec::new();
+        match mode {
+            0 => { for v in subset_reaching(sim, rng, 4) { msgs.push((K::Notar, v)); } }
+            1 | 2 => { for v in subset_reaching(sim, rng, 3) { msgs.push((K::Notar, v)); } for v in subset_reaching(sim, rng, 3) { msgs.push((K::Final, v)); } }
+            _ => {}
+        }
+        rng.shuffle(&mut msgs);
+        for (kd, v) in msgs { run.vote(sim, kd, s, h, v, true); }
+        if mode == 3 {
+            if rng.chance(1, 2) {
+                let a = subset_reaching(sim, rng, 4);
+                run.cert(sim, CK::Ff, s, h, &a, &[]);
+            } else {
+                let (a, b) = (subset_reaching(sim, rng, 3), subset_reaching(sim, rng, 3));
+                if rng.chance(1, 2) { run.cert(sim, CK::Notar, s, h, &a, &[]); run.cert(sim, CK::Final, s, 0, &b, &[]); } else { run.cert(sim, CK::Final, s, 0, &b, &[]); run.cert(sim, CK::Notar, s, h, &a, &[]); }
+            }
+        }
+        let fin = sim.pool.finalized_slot().inner();
+        run.rec.count(&format!("epoch-boundary:{}", if s % e < 4 { "slot-in-first-window-of-epoch" } else { "slot-before-boundary" }));
+        run.rec.oracle(run.dead || fin >= s, "c02-quorum-not-finalized", || format!("epoch-boundary: finalized slot {} after the {} for block ({s},{h}) on ({},{}) were delivered (catch-up slot {start}, SLOTS_PER_EPOCH {e}): the finalized slot must advance to {s}",
+            fin, ["notarization votes of >= 80 % of the stake", "notarization and finalization votes of >= 60 % each", "notarization and finalization votes of >= 60 % each", "finalizing certificate(s)"][mode as usize], parent.0, parent.1));
+        parent = (s, h);
+        if rng.chance(1, 6) { run.recover(sim); }
+    }
+    run.recover(sim);
 }
 
 fn gen_case(run: &mut Run, sim: &mut Sim, rng: &mut Rng, plan: &str) {
